@@ -461,7 +461,7 @@ func (w *World) Reset(name string) {
 
 // Quiesced emits the final event carrying the projected end state of every object.
 func (w *World) StateDigest() []any {
-	var out []any
+	out := []any{}
 	for _, k := range w.Store.Keys() {
 		p := w.Proj.Project(w.Store.Snapshot(k))
 		out = append(out, map[string]any{"key": k.String(), "p": p})
